@@ -630,12 +630,19 @@ def shrink_interfaces(ctx, cfg, res):
     names = list(res.get("names") or [])
     k = 0
 
+    def norm(errs):
+        return {re.sub(r"\d+", "N", e) for e in errs}
+    orig = norm(res.get("errors", []))
+
     def fails(ns):
+        # still failing, and with nothing but (a subset of) the original messages: a smaller input must not leave
+        # the class of the original failure
         nonlocal k
         k += 1
         c = dict(cfg, candidates=ns, id=900000 + cfg["id"] * 100 + k, no_probe=True, opts=dict(cfg["opts"]))
         r = run_config(ctx, c)
-        return bool(r.get("errors")) or r["stage"] == "mockery-failed", r
+        bad = bool(r.get("errors")) or r["stage"] == "mockery-failed"
+        return bad and (norm(r.get("errors", [])) <= orig or r["stage"] == "mockery-failed" == res["stage"]), r
     best = res
     i = 0
     while i < len(names) and len(names) > 1:
